@@ -74,12 +74,22 @@ Judge(T) ==
        \cup (IF MissingInvolved THEN {<<"C08", "valid-call-raised", 0, 0>>} ELSE {})
   ELSE
      (IF Len(C) > 0 /\ O.cols # Header THEN {<<P, "header", 0, 0>>} ELSE {})
-     \cup (IF Len(Rows) # Len(Expected)
-           THEN {<<(IF \E k \in DOMAIN C : Missing(C[k]) /\ ((k \in Sel) # (\E r \in DOMAIN Rows : Rows[r].id = C[k].id))
-                    THEN "C08" ELSE P), "row-count", Len(Rows), Len(Expected)>>}
-           ELSE UNION {IF RowOK(Rows[k], C[Expected[k]]) THEN {}
-                       ELSE {<<(IF Missing(C[Expected[k]]) THEN "C08" ELSE P), "row-differs", k, C[Expected[k]].id>>}
-                       : k \in DOMAIN Rows})
+     \cup (LET ObsIds == [k \in DOMAIN Rows |-> Rows[k].id]
+                ExpIds == [k \in DOMAIN Expected |-> C[Expected[k]].id]
+                CandOf(id) == C[CHOOSE k \in DOMAIN C : C[k].id = id]
+                Known(id) == \E k \in DOMAIN C : C[k].id = id
+            IN  (IF ObsIds # ExpIds
+                 THEN {<<P, "rows-selected", Len(Rows), Len(Expected)>>}
+                      \cup (IF \E k \in DOMAIN C : Missing(C[k])
+                                  /\ ((k \in Sel) # (\E r \in DOMAIN Rows : Rows[r].id = C[k].id))
+                            THEN {<<"C08", "missing-rows-selected", Len(Rows), Len(Expected)>>} ELSE {})
+                 ELSE {})
+                \cup UNION {IF ~Known(Rows[k].id) THEN {<<P, "unknown-id", k, Rows[k].id>>}
+                            ELSE IF RowOK(Rows[k], CandOf(Rows[k].id)) THEN {}
+                            ELSE {<<(IF Missing(CandOf(Rows[k].id)) THEN "C08" ELSE P), "row-differs", k, Rows[k].id>>}
+                                 \cup (IF ~Missing(CandOf(Rows[k].id)) /\ Rows[k].s[1] = 1
+                                       THEN {<<"C08", "nan-score-for-present-pair", k, Rows[k].id>>} ELSE {})
+                            : k \in DOMAIN Rows})
      \cup (IF T.kind = "candset" /\ T.filt = "OVERLAP"
            THEN {<<(IF Missing(C[k]) THEN "C08" ELSE "C06"), "overlap-filter_pair-not-exact", C[k].l, C[k].r>> :
                     k \in {k \in DOMAIN C : ~FpExact(k)}}
